@@ -65,6 +65,7 @@ class FlattenBase(Contract):
                                 z3.Implies(c != NULL, z3.And(M.reg_type(c) != NULL, M.reg_pet(c) != NULL))))
             s2, p = eng.place(args_n[1], st)
             eng.write_place(s2, p, c)
+            s2.ghost['classified'] = (k, c)
             return [(s2, k)]
         return None
 
@@ -114,6 +115,12 @@ class FlattenBase(Contract):
                ('root-num_nodes-is-the-number-of-appended-nodes', t.sel('num_nodes', last) == t.len - t0.len),
                ('root-num_leaves-is-the-number-of-appended-leaves', t.sel('num_leaves', last) == l.len - l0.len),
                ('depth-within-limit', cx.old('depth') <= MAXD)] + self.frame_inv(cx)
+        cl = cx.st.ghost.get('classified')
+        if cl is not None:
+            # the node records the classification made for THIS object before any of its callbacks ran: kind and
+            # registration are never re-read afterwards (a flatten function may change the registry meanwhile)
+            out += [('root-kind-is-the-classification-of-the-object', t.sel('kind', last) == cl[0]),
+                    ('root-registration-is-the-one-whose-flatten-function-was-called', t.sel('custom', last) == cl[1])]
         if 'paths' in self.extra_vectors:
             p, p0 = cx.obj(cx.var('paths')), cx.obj(cx.old('paths'), cx.entry)
             out.append(('one-path-per-leaf', p.len - p0.len == l.len - l0.len))
